@@ -658,7 +658,29 @@ def op_col(case, o):
     return proj_any(r)
 
 
-OPS = {"readback": op_readback, "getitem": op_getitem, "setitem": op_setitem, "ufunc": op_ufunc, "reduce": op_reduce,
+def op_wreduce(case, o):
+    name, arr = case[1], case[2]
+    a = build(arr, o.get("via", "flat"))
+    snap = snapshot(a)
+    L = _enc.limbs
+    if name == "sum":
+        r = np.asarray(a.sum(axis=-1) if o.get("how", "method") != "np" else np.sum(a, axis=-1))
+        if r.dtype.kind == "f":
+            out = ["flat", arr[0], [L(int(x)) for x in r.tolist()]] if np.all(np.isfinite(r)) else ["raised", "NonFiniteSum"]
+        else:
+            out = ["flat", dt_of(r.dtype), [L(int(x)) for x in r.tolist()]]
+    elif name == "total":
+        r = np.asarray(a.sum() if o.get("how", "method") != "np" else np.sum(a))[()]
+        out = ["scalar", arr[0] if isinstance(r, (float, np.floating)) else dt_of(np.asarray(r).dtype), L(int(r))]
+    elif name == "cumsum":
+        r = np.cumsum(a, axis=-1) if o.get("how", "np") == "np" else a.cumsum(axis=-1)
+        out = ["ragged", dt_of(r.dtype), [[L(int(x)) for x in np.asarray(row).tolist()] for row in r]]
+    else:
+        raise ValueError(name)
+    return out if same_snap(snap, snapshot(a)) else ["mutated", "operand changed"]
+
+
+OPS = {"wreduce": op_wreduce, "readback": op_readback, "getitem": op_getitem, "setitem": op_setitem, "ufunc": op_ufunc, "reduce": op_reduce,
        "scan": op_scan, "concat": op_concat, "like": op_like, "pad": op_pad, "nonzero": op_nonzero, "where": op_where,
        "subset": op_subset, "ragged_slice": op_ragged_slice, "col": op_col}
 
